@@ -37,7 +37,8 @@ macro_rules! impl_bits {
                 #[inline]
                 fn clear_high_bits(&self, n: usize) -> Self {
                     debug_assert!(n <= Self::LEN);
-                    *self & ((u64::MAX as $ty) >> n)
+                    // clearing all the bits is a shift by the full width
+                    *self & (u64::MAX as $ty).checked_shr(n as u32).unwrap_or(0)
                 }
             }
         )*
